@@ -23,3 +23,12 @@ def lemma_exec_sem_step():
     use_pack_unique()
     use_pack_extensionality()
     return 0
+
+
+def two_loads(context1, net1, batch_index1, context2, net2, batch_index2):
+    """Driver (not repository code): the REAL AdditionalNodesLoader.load (bound to `load` by the contract, inlined from the tree) is called for two
+    loaded nets / batches in a row, as BatchHandler.submit does when several batches are pending.  ensures: afterwards EACH net carries the run
+    metadata and batch size of its own batch."""
+    load(context1, net1, batch_index1)
+    load(context2, net2, batch_index2)
+    return 0
